@@ -94,7 +94,7 @@ def main(ctx):
             "lost_while_closing", "lost_after_session_end", "goodbye_by_peer_answered",
             "goodbye_by_peer_after_ours", "leave_twice", "leave_not_joined", "router_abort",
             "two_challenge_rounds", "pending_failed_by_goodbye", "pending_failed_by_loss",
-            "api_after_end_checked", "late_requests_checked", "onleave_after_failed_challenge",
+            "api_after_end_checked", "api_after_end_held_objects", "late_requests_checked", "onleave_after_failed_challenge",
             "executions_full_depth", "nontrivial", "burst_execs", "burst:WELCOME+GOODBYE",
             "burst:CHALLENGE+ABORT", "burst:WELCOME+lose", "rejoin_execs", "extra_execs"]
     if tier == "thorough":
@@ -472,6 +472,23 @@ class Exec:
         l1.settle()
         if len(self.pending_labels()) != 6:
             self.bad("machinery", "issue", "setup", "pending %r" % (self.pending_labels(),))
+        # held for the probes after the end: two handlers on ONE subscription, and a registration
+        d3 = s.subscribe(lambda *a, **k: None, "com.t.two")
+        r3 = s._request_id_gen._next
+        d4 = s.subscribe(lambda *a, **k: None, "com.t.two")
+        d5 = s.register(lambda *a, **k: None, "com.p.two")
+        e3 = l1.deliver(M.Subscribed(r3, 13))
+        e4 = l1.deliver(M.Subscribed(r3 + 1, 13))
+        e5 = l1.deliver(M.Registered(r3 + 2, 14))
+        if e3 or e4 or e5:
+            self.bad("machinery", "issue", "setup", "%r %r %r" % (e3, e4, e5))
+            return
+        held = []
+        for i, d in enumerate((d3, d4, d5)):
+            l1.track("held%d" % i, d)
+            held.append(l1.fstate("held%d" % i)[1])
+            del l1.futs["held%d" % i]
+        self.held = held
 
     def lose(self, clean, ctx):
         m, st = self.model, self.stats
@@ -571,6 +588,14 @@ class Exec:
                  ("publish", lambda: s.publish("com.t.late", 1, options=T.PublishOptions(acknowledge=True))),
                  ("subscribe", lambda: s.subscribe(lambda *a, **k: None, "com.t.late")),
                  ("register", lambda: s.register(lambda *a, **k: None, "com.p.late"))]
+        held = getattr(self, "held", None)
+        if strict and held and all(getattr(h, "active", False) for h in held):
+            # objects obtained while joined: one of two handlers of a subscription, then the last
+            # one, and a registration
+            calls += [("unsubscribe", lambda: held[0].unsubscribe()),
+                      ("unsubscribe", lambda: held[1].unsubscribe()),
+                      ("unregister", lambda: held[2].unregister())]
+            self.stats["api_after_end_held_objects"] = self.stats.get("api_after_end_held_objects", 0) + 1
         for kind, fn in calls:
             r = l1.api(fn)
             l1.settle()
